@@ -4,6 +4,14 @@ import json, os
 V = os.path.dirname(os.path.dirname(os.path.abspath(__file__)))
 
 CHECKS = {
+ "C19": dict(
+    technique="runtime oracles: reference-model slopes and own first-order propagation vs real Measurement conversions/arithmetic; independent readers of the +/- notations and of every measurement format",
+    text="12 constructor forms over 40 decades; every ordered compatible pair of canonical multiplicative units (7775, complete) plus temperature and log units through to()/ito(): nominal "
+         "equals the plain conversion and the model ratio, sigma scales by |slope|, relative error invariant; 90 (operator, operand-kind) combinations and random expression trees with "
+         "shared leaves against an own forward-mode propagation; offset rule table in two registry modes; generated +/- and concise notations (signs, exponents, spacing, unicode) "
+         "against an independent reader; 644 format specs rendered and read back by an independent reader, D/C outputs re-parsed by pint.",
+    note="float registry only (the uncertainties package is float-only); seven recorded findings (F1,F2,F4,F5,F7,F8,F9), two defects fixed (F3,F6)",
+    ref="4/C19"),
  "C13": dict(
     technique="runtime shadow-twin monitor: aged registry vs fresh twin at the same declarative state after every state change; counting cache proxies",
     text="Histories over the default registry interleave a pool of 46 read-only questions (convert, parse, base/root units, dimensionality, compatible units, format, to_compact, "
